@@ -19,6 +19,7 @@ from .values import (
     JSRegExp,
     JSTypedArray,
     JSArrayBuffer,
+    JS_WHITESPACE,
     to_boolean,
     to_number,
     to_integer_or_infinity,
@@ -2052,13 +2053,13 @@ class VM:
             return s.upper()
 
         def trim(*args):
-            return s.strip()
+            return s.strip(JS_WHITESPACE)
 
         def trimStart(*args):
-            return s.lstrip()
+            return s.lstrip(JS_WHITESPACE)
 
         def trimEnd(*args):
-            return s.rstrip()
+            return s.rstrip(JS_WHITESPACE)
 
         def concat(*args):
             result = s
